@@ -185,6 +185,8 @@ def project(path):
                     add('Q.' + m, ev, args=a[1:], res=ev.val)
                     continue
                 if f == 'wait_list':
+                    if m == 'drain' and len(a) == 2 and a[1][0] == 'agg' and a[1][1].endswith('RangeFull'):
+                        m = 'drain_all'  # the whole list, oldest first; what is not consumed is dropped with the Drain
                     add('WL.' + m, ev, args=a[1:], res=ev.val)
                     continue
                 add('VD.' + m, ev, args=a, res=ev.val)
